@@ -24,6 +24,11 @@ func contractTags(fc *FuncContract) []string {
 	}
 	add(fc.Safety)
 	add(fc.Term)
+	for _, cs := range fc.Calls {
+		for _, a := range cs.Asserts {
+			add(a.Tags)
+		}
+	}
 	for _, l := range fc.Loops {
 		for _, c := range l.Invariants {
 			add(c.Tags)
